@@ -302,8 +302,17 @@ def prepare(ctx, gens, targets):
             disc += 1
     if ok and not pok:
         ctx.broke(f"Props/{cid}.v does not check", plog[-2000:])
+    if ok and pok and ctx.tier == "thorough" and os.environ.get("VERIF_NO_COQCHK") != "1":
+        # independent re-check of the compiled property file and everything it depends on
+        rc, out = sh(f"timeout 1500 coqchk -silent -o -Q . Ahb Ahb.Props.{cid}", cwd=COQ, timeout=1600)
+        m = re.search(r"\* Axioms:(.*?)\n\s*\n\* Constants/Inductives relying on type-in-type:(.*?)\n\s*\n\* Constants/Inductives relying on unsafe \(co\)fixpoints:(.*?)\n\s*\n\* Inductives whose positivity is assumed:(.*?)\n", out + "\n", re.S)
+        ctx.notes["coqchk"] = {"exit": rc, "axioms": " ".join(m.group(1).split()) if m else out[-500:], "type_in_type": " ".join(m.group(2).split()) if m else None,
+                               "unsafe_fixpoints": " ".join(m.group(3).split()) if m else None, "assumed_positivity": " ".join(m.group(4).split()) if m else None}
+        if rc != 0 or not m or any(" ".join(m.group(i).split()) != "<none>" for i in (1, 2, 3, 4)):
+            ctx.broke(f"coqchk -o on Props/{cid}.vo does not come back clean", out[-1500:])
     ctx.coverage["discharged"] = disc
-    ctx.coverage["checker_cmd"] = f"make -j{NPROC} (coqc 8.16.1, full .vo) ; coqc Props/{cid}.v (Print Assumptions under every theorem)"
+    ctx.coverage["checker_cmd"] = (f"make -j{NPROC} (coqc 8.16.1, full .vo) ; coqc Props/{cid}.v (Print Assumptions under every theorem)"
+                                   + (f" ; coqchk -silent -o Ahb.Props.{cid}" if ctx.tier == "thorough" else ""))
     return ok and pok
 
 
